@@ -788,6 +788,154 @@ example : (({ off := [1, 1], shape := [1, 1], get := fun _ => some 3 } : Arr).at
     ∧ mech .mean none [exA, exB, { off := [1, 1], shape := [1, 1], get := fun _ => some 6 }] [1, 1] = some 3 := by
   decide +kernel
 
+/-- the result of merging `l₁` with fill NaN, as an image: it sits at the per-axis minimum of the offsets of `l₁` -/
+def mergedImage (m : Mode) (ndim : Nat) (l₁ : List Arr) : Arr :=
+  { off := minOffset ndim l₁, shape := (newShape ndim (normalise ndim l₁)).map Int.toNat,
+    get := fun i => mech m none (normalise ndim l₁) i }
+
+theorem mergedImage_off_axis (m : Mode) (ndim : Nat) (l₁ : List Arr) (k : Nat) (hk : k < ndim) :
+    axis k (mergedImage m ndim l₁).off = minList (l₁.map (fun a => axis k a.off)) := axis_minOffset ndim l₁ k hk
+
+theorem mergedImage_shape_axis (m : Mode) (ndim : Nat) (l₁ : List Arr) (hne : l₁ ≠ [])
+    (hoff : ∀ a ∈ l₁, a.off.length = ndim) (k : Nat) (hk : k < ndim) :
+    (((mergedImage m ndim l₁).shape.getD k 0 : Nat) : Int)
+      = maxList (l₁.map fun a => axis k a.off + ((a.shape.getD k 0 : Nat) : Int)) - minList (l₁.map fun a => axis k a.off) := by
+  obtain ⟨h1, ⟨a, ha, ha0⟩, _, h4⟩ := bbox_exact ndim l₁ hne hoff k hk
+  have hnn : 0 ≤ axis k (newShape ndim (normalise ndim l₁)) := by
+    have := (h1 a ha).2
+    have : (0 : Int) ≤ ((a.shape.getD k 0 : Nat) : Int) := Int.natCast_nonneg _
+    omega
+  have hg : (mergedImage m ndim l₁).shape.getD k 0 = (axis k (newShape ndim (normalise ndim l₁))).toNat := by
+    simp only [mergedImage, axis, List.getD_eq_getElem?_getD, List.getElem?_map]
+    cases (newShape ndim (normalise ndim l₁))[k]? <;> rfl
+  rw [hg, Int.toNat_of_nonneg hnn, h4]
+
+theorem minOffset_tiling (m : Mode) (ndim : Nat) (l₁ l₂ : List Arr) (hne : l₁ ≠ []) :
+    minOffset ndim (mergedImage m ndim l₁ :: l₂) = minOffset ndim (l₁ ++ l₂) := by
+  unfold minOffset
+  apply List.map_congr_left
+  intro k hk
+  have hk' : k < ndim := List.mem_range.mp hk
+  simp only [List.map_cons, List.map_append]
+  rw [mergedImage_off_axis m ndim l₁ k hk']
+  exact minList_cons_min _ _ (by simpa using hne)
+
+theorem newShape_tiling (m : Mode) (ndim : Nat) (l₁ l₂ : List Arr) (hne : l₁ ≠ [])
+    (hoff : ∀ a ∈ l₁, a.off.length = ndim) :
+    newShape ndim (normalise ndim (mergedImage m ndim l₁ :: l₂)) = newShape ndim (normalise ndim (l₁ ++ l₂)) := by
+  have hM := minOffset_tiling m ndim l₁ l₂ hne
+  simp only [normalise, hM, List.map_cons, List.map_append, newShape]
+  apply List.map_congr_left
+  intro k hk
+  have hk' : k < ndim := List.mem_range.mp hk
+  simp only [List.map_cons, List.map_append, List.map_map]
+  have hMlen : (minOffset ndim (l₁ ++ l₂)).length = ndim := minOffset_length _ _
+  have hR : axis k (sub (mergedImage m ndim l₁).off (minOffset ndim (l₁ ++ l₂))) + (((mergedImage m ndim l₁).shape.getD k 0 : Nat) : Int)
+      = maxList (l₁.map ((fun (a : Arr) => axis k a.off + ((a.shape.getD k 0 : Nat) : Int)) ∘ fun a => { a with off := sub a.off (minOffset ndim (l₁ ++ l₂)) })) := by
+    rw [axis_sub _ _ _ (by simp [mergedImage, minOffset_length]; exact hk') (by omega),
+      mergedImage_off_axis m ndim l₁ k hk', mergedImage_shape_axis m ndim l₁ hne hoff k hk']
+    have : l₁.map ((fun (a : Arr) => axis k a.off + ((a.shape.getD k 0 : Nat) : Int)) ∘ fun a => { a with off := sub a.off (minOffset ndim (l₁ ++ l₂)) })
+        = (l₁.map fun a => axis k a.off + ((a.shape.getD k 0 : Nat) : Int)).map (· + (- axis k (minOffset ndim (l₁ ++ l₂)))) := by
+      rw [List.map_map]
+      apply List.map_congr_left
+      intro a ha
+      simp only [Function.comp]
+      rw [axis_sub _ _ _ (by have := hoff a ha; omega) (by omega)]
+      omega
+    rw [this, maxList_add _ _ (by simpa using hne)]
+    omega
+  rw [hR]
+  exact maxList_cons_max _ _ (by simpa using hne)
+
+/-- every image of `l₁` lies inside the merged image: where the merged image does not cover `p`, none of them does -/
+theorem outside_merged (m : Mode) (ndim : Nat) (l₁ : List Arr) (hne : l₁ ≠ []) (M p : List Int)
+    (hoff : ∀ a ∈ l₁, a.off.length = ndim) (hsh : ∀ a ∈ l₁, a.shape.length = ndim)
+    (hM : M.length = ndim) (hp : p.length = ndim)
+    (hout : ({ mergedImage m ndim l₁ with off := sub (mergedImage m ndim l₁).off M } : Arr).inside p = false) :
+    contribs (l₁.map fun a => { a with off := sub a.off M }) p = [] := by
+  have hRoff : (mergedImage m ndim l₁).off.length = ndim := minOffset_length _ _
+  have hRsh : (mergedImage m ndim l₁).shape.length = ndim := by simp [mergedImage, newShape_length]
+  unfold contribs
+  rw [List.filterMap_eq_nil_iff]
+  intro a' ha'
+  obtain ⟨a, ha, rfl⟩ := List.mem_map.mp ha'
+  have hain : ({ a with off := sub a.off M } : Arr).inside p = false := by
+    by_contra hcon
+    rw [Bool.not_eq_false] at hcon
+    apply Bool.false_ne_true
+    rw [← hout]
+    simp only [Arr.inside, Bool.and_eq_true, beq_iff_eq] at hcon ⊢
+    obtain ⟨_, hr⟩ := hcon
+    rw [inRange_iff] at hr ⊢
+    obtain ⟨_, hr⟩ := hr
+    have halen := hoff a ha
+    refine ⟨by simp [sub_length, hp, hRoff, hM], by simp [sub_length, hp, hRoff, hM, hRsh], ?_⟩
+    intro k hk
+    rw [hRsh] at hk
+    have hk1 := hr k (by rw [hsh a ha]; exact hk)
+    rw [axis_sub _ _ _ (by omega) (by simp [sub_length, halen, hM]; exact hk),
+      axis_sub _ _ _ (by omega) (by omega)] at hk1
+    rw [axis_sub _ _ _ (by omega) (by simp [sub_length, hRoff, hM]; exact hk),
+      axis_sub _ _ _ (by omega) (by omega), mergedImage_off_axis m ndim l₁ k hk,
+      mergedImage_shape_axis m ndim l₁ hne hoff k hk]
+    have h1 := minList_le (l₁.map fun a => axis k a.off) (axis k a.off) (List.mem_map.mpr ⟨a, ha, rfl⟩)
+    have h2 := le_maxList (l₁.map fun a => axis k a.off + ((a.shape.getD k 0 : Nat) : Int)) _ (List.mem_map.mpr ⟨a, ha, rfl⟩)
+    omega
+  simp [Arr.at, hain]
+
+/-- **tiling, the whole function.**  Merging `l₁` with fill NaN, handing the result in as the first image (at the
+per-axis minimum of the offsets of `l₁`) of a second merge with further images `l₂`, gives — shape and every pixel —
+the one merge of `l₁ ++ l₂`: replace and sum mode, any fill of the second merge.  Hypotheses: `l₁` is not empty, every
+offset has `ndim` entries and every image of `l₁` has `ndim` axes. -/
+theorem tiling (m : Mode) (hm : m ≠ .mean) (fill : V) (ndim : Nat) (l₁ l₂ : List Arr) (hne : l₁ ≠ [])
+    (hoff : ∀ a ∈ l₁ ++ l₂, a.off.length = ndim) (hsh : ∀ a ∈ l₁, a.shape.length = ndim) :
+    overlap false m fill ndim (mergedImage m ndim l₁ :: l₂) = overlap false m fill ndim (l₁ ++ l₂) := by
+  have hoff1 : ∀ a ∈ l₁, a.off.length = ndim := fun a ha => hoff a (List.mem_append_left _ ha)
+  have hsh' := newShape_tiling m ndim l₁ l₂ hne hoff1
+  have hM := minOffset_tiling m ndim l₁ l₂ hne
+  simp only [overlap, hsh', Bool.false_eq_true, if_false]
+  congr 1
+  apply List.map_congr_left
+  intro p hp
+  have hpl : p.length = ndim := by
+    have := allIdx_length _ p hp
+    simpa [newShape_length] using this
+  have hMl : (minOffset ndim (l₁ ++ l₂)).length = ndim := minOffset_length _ _
+  have hM1 : (minOffset ndim l₁).length = ndim := minOffset_length _ _
+  have hn1 : normalise ndim (mergedImage m ndim l₁ :: l₂)
+      = ({ mergedImage m ndim l₁ with off := sub (mergedImage m ndim l₁).off (minOffset ndim (l₁ ++ l₂)) } : Arr)
+        :: l₂.map (fun a => { a with off := sub a.off (minOffset ndim (l₁ ++ l₂)) }) := by
+    simp only [normalise, hM, List.map_cons]
+  have hn2 : normalise ndim (l₁ ++ l₂)
+      = l₁.map (fun a => { a with off := sub a.off (minOffset ndim (l₁ ++ l₂)) })
+        ++ l₂.map (fun a => { a with off := sub a.off (minOffset ndim (l₁ ++ l₂)) }) := by
+    simp only [normalise, List.map_append]
+  rw [hn1, hn2]
+  apply tiling_pixel m hm
+  by_cases hin : ({ mergedImage m ndim l₁ with off := sub (mergedImage m ndim l₁).off (minOffset ndim (l₁ ++ l₂)) } : Arr).inside p = true
+  · have hat : ({ mergedImage m ndim l₁ with off := sub (mergedImage m ndim l₁).off (minOffset ndim (l₁ ++ l₂)) } : Arr).at p
+        = some (mech m none (normalise ndim l₁) (sub p (sub (minOffset ndim l₁) (minOffset ndim (l₁ ++ l₂))))) := by
+      simp only [Arr.at, hin, if_true]
+      rfl
+    rw [hat, Option.join_some, pixel_spec]
+    unfold spec
+    have := contribs_reframe l₁ (minOffset ndim l₁) (minOffset ndim (l₁ ++ l₂)) p ndim hpl hoff1 hM1 hMl
+    simp only [normalise]
+    rw [this]
+  · rw [Bool.not_eq_true] at hin
+    have hat : ({ mergedImage m ndim l₁ with off := sub (mergedImage m ndim l₁).off (minOffset ndim (l₁ ++ l₂)) } : Arr).at p = none := by
+      simp [Arr.at, hin]
+    rw [hat]
+    unfold spec
+    rw [outside_merged m ndim l₁ hne _ p hoff1 hsh hMl hpl hin]
+    rfl
+
+/-- hypotheses of `tiling` on a non-trivial input: the merge of `exA`, `exB` fed into a merge with `exZ` -/
+example : [exA, exB] ≠ [] ∧ (∀ a ∈ [exA, exB] ++ [exZ], a.off.length = 2) ∧ (∀ a ∈ [exA, exB], a.shape.length = 2)
+    ∧ (mergedImage .sum 2 [exA, exB]).off = [0, 0] ∧ (mergedImage .sum 2 [exA, exB]).shape = [3, 3]
+    ∧ (mergedImage .sum 2 [exA, exB]).get [1, 1] = some 3 ∧ (mergedImage .sum 2 [exA, exB]).get [2, 1] = none := by
+  refine ⟨by simp, by simp [exA, exB, exZ], by simp [exA, exB], by decide +kernel, by decide +kernel, by decide +kernel, by decide +kernel⟩
+
 /-! ## structured variant: translation and reordering -/
 
 def shiftS (t : List Int) (a : SArr) : SArr := { a with off := List.zipWith (· + ·) a.off t }
